@@ -54,6 +54,8 @@ type dlgWorld struct {
 	onReqAtBackend func(backend string, m *sipwire.Msg, id string)
 	onRespAtUA     func(ua string, m *sipwire.Msg, id string)
 	respScript     func(backend string, m *sipwire.Msg, id string) []respPlan
+	// afterAnswer: datagrams the answering party writes right behind its last response (same delivery event)
+	afterAnswer func(party string, m *sipwire.Msg, id string) []simnet.UDPOut
 	exact          bool // deliveries with exact, fault-free latencies (C15)
 	dispatchLog    []string // backend that received each unpinned request, in order of receipt
 }
@@ -62,7 +64,8 @@ type respPlan struct {
 	delay   time.Duration
 	status  int
 	toTag   string
-	expires int // -1 none
+	expires int  // -1 none
+	b2b     bool // written right behind the previous response: both are in the proxy's socket queue, in order, at once
 }
 
 func newDlgWorld(w *World, p *Plan) *dlgWorld {
@@ -140,6 +143,18 @@ func (d *dlgWorld) backendReceives(addr string, s *simnet.UDPSock, from *net.UDP
 	} else {
 		plans = []respPlan{{delay: 200 * time.Microsecond, status: 200, expires: -1}}
 	}
+	var group []simnet.UDPOut
+	var groupDelay time.Duration
+	flush := func() {
+		d.sendGroup(s, group, groupDelay)
+		group = nil
+	}
+	defer func() {
+		if len(group) > 0 && d.afterAnswer != nil {
+			group = append(group, d.afterAnswer(addr, m, id)...)
+		}
+		flush()
+	}()
 	for _, rp := range plans {
 		resp := buildResponse(m, rp, id)
 		dst := responseTarget(m)
@@ -159,7 +174,23 @@ func (d *dlgWorld) backendReceives(addr string, s *simnet.UDPSock, from *net.UDP
 			})
 			continue
 		}
-		d.send(s, dst, resp, rp.delay)
+		if !(rp.b2b && len(group) > 0) {
+			flush()
+			groupDelay = rp.delay
+		}
+		group = append(group, simnet.UDPOut{Dst: dst, Data: resp})
+	}
+}
+
+// sendGroup: one datagram goes the usual way (faults apply unless the world is exact); several are one back-to-back batch.
+func (d *dlgWorld) sendGroup(s *simnet.UDPSock, group []simnet.UDPOut, delay time.Duration) {
+	switch len(group) {
+	case 0:
+	case 1:
+		d.send(s, group[0].Dst, group[0].Data, delay)
+	default:
+		d.w.stat("probe:back-to-back-batch")
+		s.SendBatchExact(group, delay)
 	}
 }
 
@@ -256,11 +287,21 @@ func (d *dlgWorld) uaSocket(addr string) *simnet.UDPSock {
 			if d.respScript != nil {
 				plans = d.respScript(addr, m, id)
 			}
+			var group []simnet.UDPOut
+			var groupDelay time.Duration
 			for _, rp := range plans {
 				if dst := responseTarget(m); dst != nil {
-					d.send(s, dst, buildResponse(m, rp, id), rp.delay)
+					if !(rp.b2b && len(group) > 0) {
+						d.sendGroup(s, group, groupDelay)
+						group, groupDelay = nil, rp.delay
+					}
+					group = append(group, simnet.UDPOut{Dst: dst, Data: buildResponse(m, rp, id)})
 				}
 			}
+			if len(group) > 0 && d.afterAnswer != nil {
+				group = append(group, d.afterAnswer(addr, m, id)...)
+			}
+			d.sendGroup(s, group, groupDelay)
 		}
 	}
 	d.w.udpActors[addr] = s
@@ -398,6 +439,9 @@ func genDialogOp(g *gen, c *Cfg, n int, typ string) Op {
 		S: map[string]string{"type": typ, "callID": "call-" + id + "@" + g.alnum(3, 6), "fromURI": fromURI, "toURI": toURI,
 			"fromTag": fromTag, "toTag": toTag, "ruri": svcRURI(g, c), "ua": ua, "ua2": ua2},
 		I: map[string]int{"prov": g.intn(3), "style": g.intn(1000), "early": g.intn(4)}}
+	if g.chance(30) {
+		op.I["b2b"] = 1
+	}
 	nreq := g.rng(1, 5)
 	meths := []string{"INFO", "UPDATE", "INVITE", "MESSAGE", "REFER", "NOTIFY", "OPTIONS", "PRACK", "PUBLISH"}
 	if typ == "subscribe" {
@@ -447,6 +491,15 @@ func genStickyPlan(seed uint64, tier string) *Plan {
 	c.DialogTimeout = 3600
 	c.Faults.DupPct = g.pick2(0, 0, 5, 15)
 	c.Faults.DropPct = g.pick2(0, 0, 0, 5)
+	// a datagram write of the proxy fails now and then (ENOBUFS): that datagram is lost like a dropped one,
+	// and nothing else may change
+	c.Faults.UDPWriteErrPct = g.pick2(0, 0, 0, 3)
+	longCalls := g.chance(15)
+	if longCalls {
+		// calls that outlive the configured dialog timeout because the establishing answers promise more (Expires)
+		c.DialogTimeout = g.rng(20, 90)
+		c.Knobs = map[string]int{"longCalls": 1}
+	}
 	p.Cfg = *c
 	nd := g.rng(1, 6)
 	if g.chance(25) {
@@ -469,7 +522,15 @@ func genStickyPlan(seed uint64, tier string) *Plan {
 		if g.chance(25) {
 			typ = "subscribe"
 		}
-		p.Ops = append(p.Ops, genDialogOp(g, &p.Cfg, n, typ))
+		dop := genDialogOp(g, &p.Cfg, n, typ)
+		if longCalls {
+			for si := range dop.Sub {
+				if dop.Sub[si].S["after"] != "term" && g.chance(40) {
+					dop.Sub[si].DelayUs = int64(g.rng(60, 400)) * 1000000
+				}
+			}
+		}
+		p.Ops = append(p.Ops, dop)
 		for k := g.intn(3); k > 0; k-- {
 			n++
 			p.Ops = append(p.Ops, genPlainOp(g, &p.Cfg, n))
@@ -533,27 +594,35 @@ func (d *dlgWorld) nextInDialog(m *dlgModel) {
 	sub := &op.Sub[m.next]
 	idx := m.next
 	m.next++
-	ids := idsOf(op)
 	d.w.K.After(time.Duration(sub.DelayUs)*time.Microsecond, "dlg-next", func() {
-		id := fmt.Sprintf("%s.s%d", op.ID, idx)
-		sender := ids.ua
-		rev := sub.S["dir"] == "rev"
-		if rev {
-			sender = ids.ua2
-		}
-		o := reqOpts{method: sub.S["method"], cseq: 10 + idx, rev: rev, style: sub.I["style"], srcAddr: sender, id: id}
-		if m.typ == "subscribe" {
-			// NOTIFY comes from the notifier (the UA side): From = To of the SUBSCRIBE
-			o.rev = !rev
-		}
-		if st := sub.S["state"]; st != "" {
-			o.extra = append(o.extra, sipwire.Header{Name: "Subscription-State", Value: st})
-		}
-		if o.method == "NOTIFY" {
-			o.extra = append(o.extra, sipwire.Header{Name: "Event", Value: "presence"})
-		}
-		d.sendRequest(sender, op.Listen, ids.request(o), id)
+		sender, data, id := d.buildInDialog(m, idx)
+		d.sendRequest(sender, op.Listen, data, id)
 	})
+}
+
+// buildInDialog renders scripted in-dialog request idx of m.
+func (d *dlgWorld) buildInDialog(m *dlgModel, idx int) (sender string, data []byte, id string) {
+	op := m.op
+	sub := &op.Sub[idx]
+	ids := idsOf(op)
+	id = fmt.Sprintf("%s.s%d", op.ID, idx)
+	sender = ids.ua
+	rev := sub.S["dir"] == "rev"
+	if rev {
+		sender = ids.ua2
+	}
+	o := reqOpts{method: sub.S["method"], cseq: 10 + idx, rev: rev, style: sub.I["style"], srcAddr: sender, id: id}
+	if m.typ == "subscribe" {
+		// NOTIFY comes from the notifier (the UA side): From = To of the SUBSCRIBE
+		o.rev = !rev
+	}
+	if st := sub.S["state"]; st != "" {
+		o.extra = append(o.extra, sipwire.Header{Name: "Subscription-State", Value: st})
+	}
+	if o.method == "NOTIFY" {
+		o.extra = append(o.extra, sipwire.Header{Name: "Event", Value: "presence"})
+	}
+	return sender, ids.request(o), id
 }
 
 func (d *dlgWorld) sendPlain(op *Op) {
@@ -588,7 +657,12 @@ func execSticky(t *testing.T, p *Plan) *Result {
 				w.K.After(time.Duration(op.DelayUs)*time.Microsecond, "plain", func() { d.sendPlain(op) })
 			}
 		}
-		w.K.Settle(5 * time.Minute)
+		if p.Cfg.Knobs["longCalls"] == 1 {
+			w.stat("probe:calls-outliving-the-dialog-timeout")
+			w.K.Settle(2 * time.Hour)
+		} else {
+			w.K.Settle(5 * time.Minute)
+		}
 		if w.dead() {
 			return
 		}
@@ -641,6 +715,10 @@ func (d *dlgWorld) installStickyRules(prop string) {
 			return []respPlan{{delay: base, status: 200, expires: -1}}
 		}
 		ids := idsOf(mod.op)
+		exp := -1
+		if d.c.Knobs["longCalls"] == 1 {
+			exp = 7200
+		}
 		switch {
 		case step == "inv":
 			var out []respPlan
@@ -648,25 +726,50 @@ func (d *dlgWorld) installStickyRules(prop string) {
 			case 1:
 				out = append(out, respPlan{delay: base, status: 100, expires: -1})
 			case 2:
-				out = append(out, respPlan{delay: base, status: 180, toTag: ids.toTag, expires: -1})
+				out = append(out, respPlan{delay: base, status: 180, toTag: ids.toTag, expires: exp})
 			}
 			final := base + time.Duration(200+w.K.Draw(3000))*time.Microsecond
 			if mod.op.I["prov"] == 2 && mod.op.I["early"] > 0 {
 				final += 20 * time.Millisecond // room for an early-dialog exchange
 			}
-			out = append(out, respPlan{delay: final, status: 200, toTag: ids.toTag, expires: -1})
+			out = append(out, respPlan{delay: final, status: 200, toTag: ids.toTag, expires: exp})
 			return out
 		case step == "sub":
-			return []respPlan{{delay: base, status: 200, toTag: ids.toTag, expires: -1}}
+			return []respPlan{{delay: base, status: 200, toTag: ids.toTag, expires: exp}}
 		case strings.HasPrefix(step, "s"):
 			idx, _ := strconv.Atoi(step[1:])
 			status := 200
 			if idx < len(mod.op.Sub) && mod.op.Sub[idx].I["status"] != 0 {
 				status = mod.op.Sub[idx].I["status"]
 			}
+			if idx < len(mod.op.Sub) && (mod.op.Sub[idx].S["method"] == "INVITE" || mod.op.Sub[idx].S["method"] == "SUBSCRIBE") {
+				// every answer to an INVITE / SUBSCRIBE of the dialog establishes the pin anew with its own lifetime
+				// (the latest answer decides): in long calls all of them promise the same
+				return []respPlan{{delay: base, status: status, expires: exp}}
+			}
 			return []respPlan{{delay: base, status: status, expires: -1}}
 		}
 		return []respPlan{{delay: base, status: 200, expires: -1}}
+	}
+	d.afterAnswer = func(party string, m *sipwire.Msg, id string) []simnet.UDPOut {
+		// a notifier that answers the SUBSCRIBE and writes its first NOTIFY right behind the answer: the proxy finds
+		// both in its socket queue, the answer first
+		dlg, step := splitID(id)
+		mod := d.dialogs[dlg]
+		if mod == nil || step != "sub" || mod.op.I["b2b"] != 1 || mod.next != 0 || len(mod.op.Sub) == 0 || mod.cross {
+			return nil
+		}
+		sub := &mod.op.Sub[0]
+		if sub.S["method"] != "NOTIFY" || sub.S["dir"] == "rev" || party != idsOf(mod.op).ua {
+			return nil
+		}
+		_, data, nid := d.buildInDialog(mod, 0)
+		mod.next = 1
+		mod.established = true
+		mod.pinnedAt = w.K.Elapsed()
+		d.sentAt[nid] = w.K.Elapsed()
+		w.stat("probe:notify-right-behind-the-subscribe-answer")
+		return []simnet.UDPOut{{Dst: d.listenerAddr(mod.op.Listen), Data: data}}
 	}
 	d.onReqAtBackend = func(party string, m *sipwire.Msg, id string) {
 		dlg, step := splitID(id)
@@ -859,10 +962,17 @@ func (d *dlgWorld) installStickyRules(prop string) {
 	}
 }
 
+// emittedCount: how many times the proxy relayed (or tried to relay: a datagram write that failed counts, the
+// message was processed) message id.
 func (d *dlgWorld) emittedCount(id string) int {
 	n := 0
 	for _, e := range d.w.decodeEmissions(0) {
 		if e.ID == id {
+			n++
+		}
+	}
+	for _, f := range d.w.N.FailedUDP {
+		if m, _, err := sipwire.Parse(f.Data); err == nil && msgID(m) == id {
 			n++
 		}
 	}
@@ -932,6 +1042,12 @@ func (d *dlgWorld) judgeEmissionsC04(prop string) {
 			}
 			if len(dsts) > 1 {
 				if mod.terminated {
+					continue
+				}
+				if (sub.S["method"] == "BYE" || strings.HasPrefix(sub.S["state"], "terminated")) && ems[0].E.Dst == mod.pinned {
+					// a duplicated terminating request whose copies were all lost behind the proxy: the first copy went
+					// to the pinned backend and dissolved the pin, the later ones are load-balanced
+					w.stat("dontcare:duplicate-of-terminating-request")
 					continue
 				}
 				w.Viol = append(w.Viol, Violation{Prop: prop, Rule: "in-dialog-request-sent-to-several-backends", Msg: id,
